@@ -1,17 +1,33 @@
 #!/bin/bash
-# run every seeded change of the claimed properties through its property's quick check; writes /verif/seeded/matrix.txt
+# run every seeded change of the claimed properties through its property's check; writes /verif/seeded/matrix.txt
+# usage: tools/seedmatrix.sh [quick|thorough] [fast]
+#   fast: only the parts that caught the seed in the last recorded run (seeded/<id>/meta.json detection.parts);
+#         a regression run of the detection, much shorter than the whole check of every property
 cd /verif
+tier=${1:-quick}; mode=$2
 claimed=$(python3 -c "import json;print(' '.join(c['property_id'] for c in json.load(open('MANIFEST.json'))['checks']))")
-out=seeded/matrix.txt; : > $out
+out=seeded/matrix.txt.new; : > $out
 for d in seeded/C*-[a-d]; do
-  p=$(basename $d | cut -d- -f1)
-  case " $claimed " in *" $p "*) ;; *) echo "$(basename $d) not-claimed" >> $out; continue;; esac
-  log=/tmp/seedrun_$(basename $d).log
-  tools/seedrun.sh /verif/$d/patch.diff $p ${1:-quick} > $log 2>&1
+  sid=$(basename $d)
+  p=$(echo $sid | cut -d- -f1)
+  case " $claimed " in *" $p "*) ;; *) echo "$sid not-claimed" >> $out; continue;; esac
+  only=""
+  if [ "$mode" = "fast" ]; then
+    only=$(python3 -c "
+import json,re
+m=json.load(open('$d/meta.json'))
+parts=(m.get('detection') or {}).get('parts','') if isinstance(m.get('detection'),dict) else ''
+names=[x.split(':')[0] for x in parts.split() if x and '_known_' not in x]
+print('|'.join('^'+re.escape(n)+'\$' for n in names))")
+  fi
+  log=/tmp/seedrun_$sid.log
+  tools/seedrun.sh /verif/$d/patch.diff $p $tier "$only" > $log 2>&1
   rc=$(grep -o "SEEDRUN rc=[0-9]*" $log | cut -d= -f2)
   v=$(grep -c "^VIOLATION" $log)
   parts=$(grep -E "\[(K|M|D)\] .* (fail|inconclusive)" $log | awk '{print $2":"$3}' | tr '\n' ' ')
-  echo "$(basename $d) rc=$rc violations=$v $parts" >> $out
+  if [ -z "$parts" ]; then parts=$(grep -o "replay=[^ ]*" $log | sed -E 's#.*/C[0-9]+-(.*)-[0-9a-f]{10}\.json#\1:fail#' | sort -u | tr '\n' ' '); fi
+  echo "$sid rc=$rc violations=$v $parts" >> $out
   git -C /repo checkout -- . 2>/dev/null
 done
-cat $out
+mv $out seeded/matrix.txt
+cat seeded/matrix.txt
